@@ -48,7 +48,51 @@ pub fn round(ctx: &Ctx, address: &str, tname: &str, nclients: usize, nbad: usize
     let started_at = Instant::now();
     let spans: Mutex<Vec<(usize, u64, u64)>> = Mutex::new(Vec::new());
     let results: Mutex<Vec<(usize, Vec<String>, Result<usize, (String, String, String)>)>> = Mutex::new(Vec::new());
+    let upgraders = rng.below(3);
+    let up_results: Mutex<Vec<Result<usize, String>>> = Mutex::new(Vec::new());
     std::thread::scope(|s| {
+        // connections that upgrade and then speak their own line protocol: per-connection state
+        // (the upgraded interface) must not leak into the others
+        for u in 0..upgraders {
+            let up_results = &up_results;
+            let mut urng = Rng::lane(seed, (round_no * 1000 + 900 + u) as u64);
+            s.spawn(move || {
+                let r = (|| -> Result<usize, String> {
+                    let mut c = RawConn::connect(address).map_err(|e| e.to_string())?;
+                    let tok = format!("R{}U{}", round_no, u);
+                    c.write_all(&Req::new(Kind::Echo, Flags { more: false, oneway: false }, &tok).to_bytes()).map_err(|e| e.to_string())?;
+                    match c.read_frame(Duration::from_secs(20)) {
+                        ReadEv::Frame(f) if String::from_utf8_lossy(&f).contains(&tok) => {}
+                        other => return Err(format!("upgrader: first Echo answered {:?}", other)),
+                    }
+                    let up = serde_json::to_vec(&json!({"method": "org.verif.t.Upgrade", "upgrade": true, "parameters": {"token": tok}})).unwrap();
+                    c.write_all(&up).map_err(|e| e.to_string())?;
+                    c.write_all(&[0]).map_err(|e| e.to_string())?;
+                    match c.read_frame(Duration::from_secs(20)) {
+                        ReadEv::Frame(f) if String::from_utf8_lossy(&f).contains(&tok) => {}
+                        other => return Err(format!("upgrader: Upgrade answered {:?}", other)),
+                    }
+                    let n = urng.range(1, 6);
+                    let mut want = Vec::new();
+                    for k in 0..n {
+                        let line = format!("{} line {} {}\n", tok, k, urng.next() & 0xfff);
+                        c.write_all(line.as_bytes()).map_err(|e| e.to_string())?;
+                        want.extend_from_slice(b"ack:");
+                        want.extend_from_slice(line.as_bytes());
+                        if urng.chance(1, 2) {
+                            std::thread::sleep(Duration::from_millis(urng.below(4) as u64));
+                        }
+                    }
+                    c.shutdown_write();
+                    let (got, _eof) = c.read_to_eof(Duration::from_secs(20));
+                    if got != want {
+                        return Err(format!("upgraded session: got {} expected {}", show(&got), show(&want)));
+                    }
+                    Ok(n)
+                })();
+                up_results.lock().unwrap().push(r);
+            });
+        }
         for c in 0..nclients {
             let finished = &finished;
             let results = &results;
@@ -125,6 +169,12 @@ pub fn round(ctx: &Ctx, address: &str, tname: &str, nclients: usize, nbad: usize
     ctx.case(if overlapped && nclients >= 2 { Some(hash_of(&(nclients, tname, &bads, ohash))) } else { None });
     ctx.count("client_connections", nclients as u64);
     ctx.count("misbehaving_peers", peers_open as u64);
+    for r in up_results.into_inner().unwrap() {
+        match r {
+            Ok(n) => ctx.count("upgraded_lines_acknowledged", n as u64),
+            Err(m) => ctx.violation("c13:upgraded-connection-disturbed", json!({"engine": "c13", "transport": tname, "clients": nclients, "message": m, "seed": seed, "round": round_no})),
+        }
+    }
     for (c, desc, r) in results.into_inner().unwrap() {
         match r {
             Ok(fr) => ctx.count("reply_frames_observed", fr as u64),
@@ -141,7 +191,7 @@ pub fn main(ctx: &Ctx) -> i32 {
     ctx.assume("tokens are globally unique (round, client, index), so a foreign byte is recognisable; OS schedules are sampled, not controlled");
     let rounds = ctx.tier.pick(120usize, 2000usize);
     for (ti, &tr) in [Transport::UnixPath, Transport::Tcp].iter().enumerate() {
-        let mut server = match Server::start(standard_service(SvcCfg::default()), tr, ServerCfg { initial: 1, max: 200, idle_timeout: 0, with_stop_flag: true }) {
+        let mut server = match Server::start(standard_service(SvcCfg { up: UpMode::Line, ..Default::default() }), tr, ServerCfg { initial: 1, max: 200, idle_timeout: 0, with_stop_flag: true }) {
             Ok(s) => s,
             Err(e) => {
                 ctx.inconclusive(json!({ "server_start": e }));
@@ -154,6 +204,10 @@ pub fn main(ctx: &Ctx) -> i32 {
         }
         let mut rng = Rng::lane(ctx.seed, 1200 + ti as u64);
         for r in 0..rounds / 2 {
+            if ctx.violations() >= 3 {
+                // enough witnesses; do not sit through further timeouts on a broken tree
+                break;
+            }
             let n = *rng.pick(&[2usize, 2, 3, 4, 6, 8, 12, 16, 24, 32, 48, 64]);
             let nbad = rng.below(9);
             round(ctx, &server.address, &format!("{:?}", tr), n, nbad, ctx.seed, ti * 100_000 + r);
@@ -169,7 +223,7 @@ pub fn main(ctx: &Ctx) -> i32 {
 }
 
 pub fn replay(ctx: &Ctx, w: &Value) {
-    let mut server = Server::start(standard_service(SvcCfg::default()), Transport::UnixPath, ServerCfg { initial: 1, max: 200, idle_timeout: 0, with_stop_flag: true }).expect("server");
+    let mut server = Server::start(standard_service(SvcCfg { up: UpMode::Line, ..Default::default() }), Transport::UnixPath, ServerCfg { initial: 1, max: 200, idle_timeout: 0, with_stop_flag: true }).expect("server");
     server.wait_ready().expect("ready");
     let g = |k: &str| w.get(k).and_then(|v| v.as_u64()).unwrap_or(1);
     for i in 0..10 {
